@@ -25,7 +25,7 @@ func (c12Prop) ID() string     { return "C12" }
 func (c12Prop) Race() bool     { return true }
 func (c12Prop) BatchSize() int { return 6 }
 func (c12Prop) Rule() string {
-	return "case = one round: K in {2,8,32} goroutines create, execute and close queries in a loop on ONE engine (local, or distributed over 2 shared partitions) and ONE shared immutable store that hands the same label slices to everybody; query texts mix same/different, instant/range, native/fallback; half of the rounds run with stateless yield/sleep perturbation at the hook points and in storage callbacks; the binary is built with -race (reports are read from GORACE log_path, de-duplicated by engine entry-point pair) and every concurrent result is compared with the solo result of the same query; non-trivial iff at least two Exec calls overlapped in time; distinct by content hash"
+	return "case = one round: K in {2,8,32} goroutines (48 in heavy rounds: 3-4 nested aggregations over 24x the series) create, execute and close queries in a loop on ONE engine (local, or distributed over 2 shared partitions) and ONE shared immutable store that hands the same label slices to everybody; query texts mix same/different, instant/range, native/fallback, and in half of the rounds are new to the process and first met by all goroutines at once; a round that does not finish within 2 minutes is a hang (goroutine dump attached); half of the rounds run with stateless yield/sleep perturbation at the hook points and in storage callbacks; the binary is built with -race (reports are read from GORACE log_path, de-duplicated by engine entry-point pair) and every concurrent result is compared with the solo result of the same query; non-trivial iff at least two Exec calls overlapped in time; distinct by content hash"
 }
 func (c12Prop) NumCases(tier string) int {
 	if tier == "thorough" {
